@@ -274,7 +274,10 @@ def run(rep: common.Reporter, tier: str, prop: str) -> dict:
     docs_pp, _ = doclib.layouts(max_lines=nmax, accepted_only=True)
     docs_pp = [d for d in docs_pp if len(d['lines']) == nmax and any(k in ('com', 'icom', 'dcom') for k in d['lines'])
                and sum(1 for k in d['lines'] if k in ('dir', 'txn', 'meta', 'post', 'pmeta', 'opt', 'head')) >= 2]
-    if tier == 'quick':
+    if prop == 'C19':
+        docs = [d for d in docs if len(d['lines']) <= 3][:400]
+        docs_pp = []
+    elif tier == 'quick':
         rng = random.Random(seed)
         docs = docs + rng.sample(docs_pp, min(300, len(docs_pp)))
     flavors = [seed % 12]
@@ -289,8 +292,13 @@ def run(rep: common.Reporter, tier: str, prop: str) -> dict:
         rep.machinery_error(f'CommentOwnership trace validation: {e}')
     for ti, step, clause in tv['rejected']:
         is04 = clause in C04_CLAUSES
-        if (prop == 'C04') == is04:
-            ev = traces[ti]['events'][step - 1] if step else {}
+        ev = traces[ti]['events'][step - 1] if step else {}
+        if prop == 'C19':
+            if not ev.get('exc'):
+                continue        # C19 only judges refused calls (comments that cannot be found / already claimed)
+        elif (prop == 'C04') != is04:
+            continue
+        if True:
             rep.violation(f'{prop}/comments/{clause}/{ev.get("op", "?")}',
                           {'what': f'recorded attribution calls rejected by CommentOwnership at event {step}: {clause}',
                            'text': traces[ti]['text'], 'default_parse': traces[ti]['default'],
